@@ -370,6 +370,41 @@ func c10() []*Ob {
 				}
 				fromPool := c.P.MayCall(Callee("(*sync.Pool).Get"))
 				reset := Callee("(*bytespool.Buffer).Reset")
+				// a helper hands out clean buffers when every pooled value it returns was reset on that path (the same rule, one level down)
+				var cleanHelper func(h *ssa.Function, depth int) bool
+				cleanPath := func(f *ssa.Function, rp RetPath, src *ssa.Call, depth int) bool {
+					for _, r := range CallsIn(f, reset) {
+						ri := r.(ssa.Instruction)
+						if Receiver(r) == ssa.Value(src) && (ri.Block() == rp.At || ri.Block().Dominates(rp.At)) {
+							return true
+						}
+					}
+					if h := StaticCallee(src); h != nil && c.P.InRepo(h) && depth > 0 {
+						return cleanHelper(h, depth-1)
+					}
+					return false
+				}
+				cleanHelper = func(h *ssa.Function, depth int) bool {
+					if h.Blocks == nil || h.Signature.Results().Len() == 0 {
+						return false
+					}
+					found := false
+					for _, rp := range ReturnPaths(h, 0) {
+						src, _ := rp.Val.(*ssa.Call)
+						if src == nil || !fromPool(src) {
+							if ta, isTA := rp.Val.(*ssa.TypeAssert); isTA {
+								_ = ta
+								return false // the raw pool value itself: not reset here
+							}
+							continue
+						}
+						found = true
+						if !cleanPath(h, rp, src, depth) {
+							return false
+						}
+					}
+					return found
+				}
 				n := 0
 				for _, rp := range ReturnPaths(fn, 0) {
 					src, _ := rp.Val.(*ssa.Call)
@@ -377,13 +412,7 @@ func c10() []*Ob {
 						continue
 					}
 					n++
-					ok := false
-					for _, r := range CallsIn(fn, reset) {
-						ri := r.(ssa.Instruction)
-						if Receiver(r) == ssa.Value(src) && (ri.Block() == rp.At || ri.Block().Dominates(rp.At)) {
-							ok = true
-						}
-					}
+					ok := cleanPath(fn, rp, src, 2)
 					if ok {
 						c.Site(rp.Ret.Pos(), "a pooled buffer is reset before it is handed out")
 					} else {
